@@ -6,11 +6,17 @@ Extracts from $AMGCL_REPO (default /repo)
     amgcl/relaxation/detail/ilu_solve.hpp    ilu_solve<builtin>::sptr_solve<lower>  (constructor step 3, solve)
 the loop/pragma skeleton of the level-scheduled kernels:
     run         the `#pragma omp parallel` region of sweep()/solve(): every pragma, every `for` header and every
-                statement that stores into x[...], each with its nesting depth (parallel region and loops nest)
+                statement that stores into x[...] or mentions team / nlev / tasks[tid] (which task a thread of the
+                actual team runs), each with its nesting depth (parallel region and loops nest)
     serialPred  the member initialiser that decides the serial fallback
     nthreads    the member initialiser that fixes the team size
-    chunking    the `#pragma omp parallel` region of the constructor that pushes into tasks[tid]: pragma, loop
-                header and the statements that define lev_size / chunk_size / beg / end / the pushed task
+    chunking    the `#pragma omp parallel` region of the constructor that pushes into tasks[tid]: pragma, the team
+                stride and the loop over the virtual threads tid, loop header and the statements that define
+                lev_size / chunk_size / beg / end / the pushed task
+    fill        the other `#pragma omp parallel` region of the constructor (step 4, thread-local copies): pragma,
+                team stride, loop over the virtual threads, task loop with the re-basing of t.beg/t.end
+    teamSize    the body of team_size() (the stride of every tid loop: the size of the ACTUAL team)
+    threadId    the body of thread_id() (the first virtual thread of a thread: its number in the team)
 and writes lean/Amgcl/Generated/SyncSkeleton.lean with
     theorem gs_skeleton_ok  : gsExtracted  = Amgcl.Sched.gsExpectedSkeleton  := by decide
     theorem ilu_skeleton_ok : iluExtracted = Amgcl.Sched.iluExpectedSkeleton := by decide
@@ -160,9 +166,15 @@ def extract(path, struct_re, struct_name, run_fn, serial_re):
     ctor = parse_stmts(body[i + 1:j])
     regs = [(p, b) for p, b in omp_regions(ctor) if re.search(r"tasks\s*\[\s*tid\s*\]\s*\.\s*push_back", flatten_text(b))]
     if len(regs) != 1: raise ParseError("expected exactly one parallel region pushing tasks in %s, found %d" % (struct_name, len(regs)))
-    keep = lambda s: re.search(r"\b(lev_size|chunk_size)\b", s) is not None or re.match(r"(ptrdiff_t )?(beg|end)\+?=", s) is not None \
+    keep = lambda s: re.search(r"\b(lev_size|chunk_size|team)\b", s) is not None or re.match(r"(ptrdiff_t )?(beg|end)\+?=", s) is not None \
         or "tasks[tid].push_back" in s
     chunking = skeleton_lines([regs[0][0], regs[0][1]], 0, keep)
+    # step 4 (the thread-local copies): the other parallel region of the constructor; its team loop
+    regs4 = [(p, b) for p, b in omp_regions(ctor) if re.search(r"ptr\s*\[\s*tid\s*\]\s*\.\s*push_back\s*\(\s*0\s*\)", flatten_text(b))]
+    if len(regs4) != 1: raise ParseError("expected exactly one parallel region filling ptr[tid] in %s, found %d" % (struct_name, len(regs4)))
+    keep4 = lambda s: re.search(r"\bteam\b", s) is not None or s == "ptr[tid].push_back(0);" or re.match(r"t\.(beg|end)=", s) is not None
+    fill = skeleton_lines([regs4[0][0], regs4[0][1]], 0, keep4)
+    if len(omp_regions(ctor)) != 2: raise ParseError("expected exactly two parallel regions in the constructor of %s" % struct_name)
     # run function
     m = re.search(r"\bvoid\s+%s\s*\([^)]*\)\s*(const)?\s*\{" % run_fn, body)
     if not m: raise ParseError("%s::%s" % (struct_name, run_fn))
@@ -170,11 +182,20 @@ def extract(path, struct_re, struct_name, run_fn, serial_re):
     fn = parse_stmts(body[i + 1:j])
     regs = omp_regions(fn)
     if len(regs) != 1: raise ParseError("expected exactly one parallel region in %s::%s" % (struct_name, run_fn))
-    run = skeleton_lines(fn, 0, lambda s: STORE_X.search(s) is not None)
+    run = skeleton_lines(fn, 0, lambda s: STORE_X.search(s) is not None or re.search(r"\b(team|nlev)\b|tasks\[tid\]", s) is not None)
+    # team_size(): what the stride of the tid loops is
+    mt = re.search(r"\bstatic\s+int\s+team_size\s*\(\s*\)\s*\{", src)
+    if not mt: raise ParseError("team_size() near " + struct_name)
+    i = mt.end() - 1; j = match_close(src, i, "{", "}")
+    team_size = norm(src[i + 1:j])
+    mt = re.search(r"\bstatic\s+int\s+thread_id\s*\(\s*\)\s*\{", src)
+    if not mt: raise ParseError("thread_id() near " + struct_name)
+    i = mt.end() - 1; j = match_close(src, i, "{", "}")
+    thread_id = norm(src[i + 1:j])
     # serial fallback predicate (in the enclosing class)
     ms = re.search(serial_re, src, re.S)
     if not ms: raise ParseError("serial fallback predicate near " + struct_name)
-    return {"run": run, "serialPred": norm(ms.group(1)), "nthreads": nthreads, "chunking": chunking}
+    return {"run": run, "serialPred": norm(ms.group(1)), "nthreads": nthreads, "chunking": chunking, "fill": fill, "teamSize": team_size, "threadId": thread_id}
 
 
 def flatten_text(node):
@@ -191,8 +212,8 @@ def lean_str(s):
 
 def lean_skel(name, sk):
     def lst(ls): return "[" + ",\n     ".join("(%d, %s)" % (d, lean_str(t)) for d, t in ls) + "]"
-    return ("def %s : Amgcl.Sched.Skeleton where\n  run :=\n    %s\n  serialPred := %s\n  nthreads := %s\n  chunking :=\n    %s\n"
-            % (name, lst(sk["run"]), lean_str(sk["serialPred"]), lean_str(sk["nthreads"]), lst(sk["chunking"])))
+    return ("def %s : Amgcl.Sched.Skeleton where\n  run :=\n    %s\n  serialPred := %s\n  nthreads := %s\n  chunking :=\n    %s\n  fill :=\n    %s\n  teamSize := %s\n  threadId := %s\n"
+            % (name, lst(sk["run"]), lean_str(sk["serialPred"]), lean_str(sk["nthreads"]), lst(sk["chunking"]), lst(sk["fill"]), lean_str(sk["teamSize"]), lean_str(sk["threadId"])))
 
 
 HEADER = """-- GENERATED by tools/sync_skeleton.py from $AMGCL_REPO/amgcl/relaxation/{gauss_seidel.hpp,detail/ilu_solve.hpp}%s — do not edit; regenerated on every run
